@@ -164,6 +164,8 @@ package main
 //@   ensures NoDup(result)
 //@   ensures result == nil || fresh(result)
 //@   modifies fresh []string
+//@   assert before append#1: [notIn] !(node in ret)
+//@   assert before append#1: [notYet] forall i int :: 0 <= i && i < len(ret) ==> ret[i] != node
 //@   loop 1 binds node
 //@   loop 1 invariant forall n string :: (n in ret) == (n in visited)
 //@   loop 1 invariant NoDup(ret) && (ret == nil || fresh(ret))
